@@ -154,6 +154,18 @@ def setup_worker():
     runrt._mods()
 
 
+def history_key(case):
+    """second run in one process: one history per (outcome, buffering,
+    formatter) among the single-test histories that write to both streams"""
+    if len(case) == 3 and len(case[0]) == 1 and case[0][0][1] == 'ws' and case[0][0][0] in ('pass', 'fail', 'sub_skip', 'uxs'):
+        if (case[1], case[2]) in ((True, 'plain'), (False, 'plain'), (True, 'xml')):
+            return (case[0][0][0], case[1], case[2])
+    return None
+
+
+HISTORY_MAX = 10
+
+
 def run_case(case):
     seq, buf, fmt = case
     spec = build_spec(seq, fmt)
